@@ -45,7 +45,7 @@ PROPS = {
     },
     "C08": {
         "pkg": "hwriter", "test": "TestC08", "replay_test": "TestC08_Replay", "level": "exploration",
-        "quick": T(16, 1500, fixed=["TestC08_Table"]), "thorough": T(16, 150000, fixed=["TestC08_Table"], timeout=5000),
+        "quick": T(16, 1500, fixed=["TestC08_Table"]), "thorough": T(16, 100000, fixed=["TestC08_Table"], timeout=5000),
         "rule": "part 1 (exhaustive): decision function over all triples of 11 magnitudes x 4 presence combinations against a table derived from the statement. "
                 "part 2 (rapid): source timelines over 2 databases x 2 collections x 1 partition (create/op/drop/re-create, 6 collection op kinds, 2 partition op kinds, db create/drop); "
                 "API-event stream and op stream keep their own order and are merged arbitrarily; the run ends at the first not-ready error (the task would pause); then restart with the drop-horizon table "
@@ -56,7 +56,7 @@ PROPS = {
     },
     "C09": {
         "pkg": "hwriter", "test": "TestC09(_DML|_Bookkeeping|_MappingUpdate)?", "ntests": 4, "level": "exploration",
-        "quick": T(16, 700), "thorough": T(16, 80000, timeout=5000),
+        "quick": T(16, 700), "thorough": T(16, 25000, timeout=5000),
         "rule": "life of a shared writer (TestC09_MappingUpdate): operations before and after UpdateNameMappings (a later task registers more entries) are each addressed by the table as it is at that moment. bookkeeping clause (TestC09_Bookkeeping): after a replicated drop-collection event at source time T an older operation on the same source names must be skipped and an operation on an unrelated source collection called like the mapped name must be executed. rapid over the product {18 op-message kinds, 4 API events (TestC09), 5 DML message kinds (TestC09_DML), readiness probes} x source db {'', default, db1} x mapping shape "
                 "{none, exact, whole-db, unrelated, exact+whole-db for the same db} x downstream ok/failing; expected names from a 6-line reference mapping; routing db (ReplicateParam.Database), "
                 "request name fields and names inside serialized DML are compared. non-trivial = the mapping changes the database and the operation is collection-scoped; distinct = distinct (kind, names, mapping, contents)",
@@ -65,7 +65,7 @@ PROPS = {
     },
     "C20": {
         "pkg": "hwriter", "test": "TestC20(_Malformed)?", "ntests": 2, "replay_test": "TestC20_Replay", "level": "exploration",
-        "quick": T(16, 700), "thorough": T(16, 80000, timeout=5000),
+        "quick": T(16, 700), "thorough": T(16, 50000, timeout=5000),
         "rule": "rapid over 18 op kinds and 4 API events with arbitrary identifiers, index params, partition lists with members recorded as dropped, replica numbers, resource groups, user/role/privilege tuples, "
                 "valid/invalid password encodings, schemas with 1..5 user fields (+dynamic field), shard number, consistency level, properties; plus malformed packs. Oracle: exactly one downstream request of the "
                 "corresponding kind, deep comparison with the source (names excluded: C09), replication stamp = pack end-position time / event time, dropped partitions removed in order, malformed pack -> error and zero calls. "
